@@ -254,6 +254,8 @@ def variant(rng, case):
         r = 0.4 + 0.6 * rng.random()
     if r >= 0.86:
         return interlayer_variant(rng)
+    if 0.74 <= r < 0.86:
+        return mcd_stagnant_variant(rng)
     if r < 0.25:
         c["mcd"] = {"dw": rng.choice(["1e-9", "0.3e-9", "2e-9"]), "por": rng.choice(["0.3", "1", "0.1"])}
         c["variant"] = "mcd"
@@ -357,6 +359,54 @@ def interlayer_variant(rng, partial=None):
             "implicit": None, "solids": "exchange", "exch": exch,
             "interlayer": {"por": rng.choice(["0.09", "0.05", "0.15"]), "lim": "0.01", "tort": rng.choice(["150", "50", "300"])},
             "variant": "interlayer_partial" if len(exch) < n else "interlayer", "sols": sols}
+
+
+def mcd_stagnant_variant(rng, form=None):
+    """explicit multicomponent diffusion with a stagnant layer (exchange-factor form or explicit MIX pairs), mostly
+    closed diffusion-only, with a concentration contrast between mobile and stagnant cells; the inventory is taken
+    over mobile + stagnant cells"""
+    n = rng.choice([2, 3, 4, 5, 6, 8])
+    shifts = rng.choice([1, 2, 3, 5, 6])
+    L = rng.choice(["0.02", "0.05", "0.1", "0.2"])
+    timest = rng.choice(["600", "3600", "7200", "86400"])
+    while 4.5e-8 * float(timest) / float(L) ** 2 * n * shifts > 20000:
+        timest = _fracdec(Fraction(timest) / 4)
+    cs = rng.choice([1, 1, 10])
+    form = form or rng.choice(["exch", "mix"])
+    thm, thim, wim = rng.choice([("0.2", "0.1", "0.5"), ("0.4", "0.1", "0.25"), ("0.3", "0.15", "0.5"), ("0.3", "0.3", "1")])
+    sols = {}
+    lo = solution(rng, cs * 0.1, True, False)
+    hi = solution(rng, cs * 5, True, False)
+    mob_hi = rng.random() < 0.5
+    for i in range(1, n + 1):
+        sols[str(i)] = dict(hi if mob_hi else lo) if rng.random() < 0.7 else solution(rng, cs, True, False)
+    stag = {"n": 1}
+    mix = {}
+    for i in range(1, n + 1):
+        if rng.random() < 0.85 or i == 1:
+            so = dict(lo if mob_hi else hi) if rng.random() < 0.7 else solution(rng, cs, True, False)
+            so["water"] = wim
+            sols[str(i + 1 + n)] = so
+            if form == "mix":
+                a = Fraction(rng.choice(["0.01", "0.05", "0.1", "0.2"]))
+                b = a / Fraction(wim)
+                mix[str(i)] = [_fracdec(1 - a), _fracdec(b), _fracdec(1 - b), _fracdec(a)]
+    if form == "exch":
+        stag.update({"exch": dec(rng, 1e-6, 1e-4, 2), "thm": thm, "thim": thim})
+    else:
+        stag["mix"] = mix
+    flow, bc = "diffusion_only", [2, 2]
+    if rng.random() < 0.25:
+        flow, bc = rng.choice(["forward", "back"]), [3, 3]
+        sols["0"] = solution(rng, cs, True, False)
+        sols[str(n + 1)] = solution(rng, cs, True, False)
+    c = {"kind": "transport", "n": n, "shifts": shifts, "flow": flow, "bc": bc, "lengths": [L], "disps": ["0"],
+         "diffc": "0.3e-9", "timest": timest, "correct_disp": False, "stag": stag,
+         "mcd": {"dw": rng.choice(["1e-9", "0.5e-9"]), "por": thm}, "implicit": None, "solids": None,
+         "variant": "mcd_stagnant_" + form, "sols": sols}
+    if rng.random() < 0.3:
+        c["pors"] = [thm] * n + [thim] * n
+    return c
 
 
 def render(case, headings=None):
@@ -510,11 +560,21 @@ def corpus():
                    interlayer={"por": "0.09", "lim": "0.01", "tort": "10"},
                    exch={"1": "0.05", "2": "0.05", "3": "0.2", "4": "0.02", "5": "0.5", "6": "0.2", "7": "0.2", "8": "0.2"},
                    sols={"1": A, "2": A, "3": C, "4": C, "5": B, "6": B, "7": C, "8": B})
+    # [7] seeded change C11e (multi_D receiving-cell guard `jcell != count_cells + 1` -> `jcell <= count_cells`): explicit
+    #     multicomponent diffusion between mobile and stagnant cells; inventory over mobile + stagnant cells
+    K1 = {"water": "1", "pH": "7", "el": {"K": "20", "Br": "20", "Na": "2", "Cl": "2"}}
+    N1 = {"water": "1", "pH": "7", "el": {"Na": "5", "Cl": "5"}}
+    S1 = {"water": "0.5", "pH": "7", "el": {"Na": "0.5", "Cl": "0.5"}}
+    eighth = {"kind": "transport", "n": 4, "shifts": 6, "flow": "diffusion_only", "bc": [2, 2], "lengths": ["0.05"], "disps": ["0"],
+              "diffc": "1.0e-9", "timest": "7200", "correct_disp": False,
+              "stag": {"n": 1, "exch": "6.8e-6", "thm": "0.3", "thim": "0.15"},
+              "mcd": {"dw": "1.0e-9", "por": "0.3", "lim": "0.05"}, "implicit": None, "solids": None, "variant": "mcd_stagnant_exch",
+              "sols": {"1": K1, "2": N1, "3": N1, "4": N1, "6": S1, "7": S1, "8": S1, "9": S1}}
     # which known finding a corpus case is allowed to reproduce (all other corpus cases must pass strictly)
     third["expect"] = "speciation-residual-accumulates"
     fourth["expect"] = "implicit-mcd-closed-inventory-drift"
     seventh["expect"] = "mcd-negative-concentration-guard-adds-mass"
-    return [base, second, third, fourth, fifth, sixth, seventh]
+    return [base, second, third, fourth, fifth, sixth, seventh, eighth]
 
 
 HEADS = ["cell", "step", "state", "water", "H", "O", "cb"] + ["m_" + e for e in ELEMENTS] + ["c_" + e for e in ELEMENTS]
